@@ -34,7 +34,7 @@ REAL_VS_STUB = {"real": ["sdeint, check_contract, BaseSDESolver.integrate, all s
                          "BrownianInterval (real-bm runs)"],
                 "stub": ["StubBrownian (stub-bm runs)", "RecordingBrownian proxy with crash points",
                          "SDE zoo drift/diffusion with crash points"]}
-PROBES = ("chunks_total", "chunks_ge_4", "crash_fired_f", "crash_fired_g", "crash_fired_bm", "crash_not_reached",
+PROBES = ("ts_dtype_differs", "chunks_total", "chunks_ge_4", "crash_fired_f", "crash_fired_g", "crash_fired_bm", "crash_not_reached",
           "extra_state_carried", "negative_control_differs", "negative_control_same", "intermediate_outputs",
           "real_bm", "stub_bm", "f32", "final_step_clipped")
 STATE_MEASURE = "distinct (solver, noise type, steps, cut pattern, crash pattern) tuples"
@@ -67,6 +67,7 @@ def gen_case(seed, tier, idx):
                for _ in range(ro.choice([0, 1, 2, 4]))]
     return {"solver": solver, "sde": spec, "dtype": dtype, "t0": fx(t0), "dt": fx(dt), "T": fx(T),
             "bm": "real" if rs.random() < 0.25 else "stub", "bm_seed": rs.randrange(1 << 30),
+            "ts_dtype": rs.choice(["same", "same", "same", "float64", "float32"]),
             "cuts": cuts, "crashes": crashes, "outputs": outputs,
             "cache_size": rs.choice([45, 2, 0]), "fault_rate": bm.gen_fault_rate(st.get("faults")),
             "fault_seed": rs.randrange(1 << 30)}
@@ -80,6 +81,7 @@ def run_case(case, keep_log=False):
     violation = None
     states = []
     tdt = stubs.DT[case["dtype"]]
+    tts = tdt if case.get("ts_dtype", "same") == "same" else stubs.DT[case["ts_dtype"]]  # dtype of the time tensor
     spec = case["sde"]
     solver = case["solver"]
     B, m, d = spec["batch"], spec["m"], spec["d"]
@@ -89,11 +91,12 @@ def run_case(case, keep_log=False):
     if solver["options"]:
         kw["options"] = dict(solver["options"])
     probes["f32"] = int(case["dtype"] == "float32")
+    probes["ts_dtype_differs"] = int(tts != tdt)
     fired = {"miss": 0, "drop": 0, "blackout": 0}
     n_steps = 0
     n_attempts = 0
     try:
-        tsv = torch.tensor([xf(case["t0"]), xf(case["T"])], dtype=tdt)
+        tsv = torch.tensor([xf(case["t0"]), xf(case["T"])], dtype=tts)
         t0, T = float(tsv[0]), float(tsv[1])
         # the Brownian peer (shared by the one-shot run and all chunks)
         plan = None
@@ -135,7 +138,7 @@ def run_case(case, keep_log=False):
         outs = set()
         for o in case["outputs"]:
             k = min(o["k"], n - 1)
-            t = float(torch.tensor(grid[k] + o["frac"] * (grid[k + 1] - grid[k]), dtype=tdt))
+            t = float(torch.tensor(grid[k] + o["frac"] * (grid[k + 1] - grid[k]), dtype=tts))
             if t0 < t < T:
                 outs.add(t)
         outs = sorted(outs)
@@ -144,11 +147,14 @@ def run_case(case, keep_log=False):
         cuts = sorted(set(min(c, n) for c in case["cuts"] if 0 < min(c, n) < n))
         sde = stubs.make_sde(spec, case["dtype"])
         rec = stubs.make_recorder(inner)
-        ts_ref = torch.tensor(sorted(set([t0] + outs + [grid[c] for c in cuts] + [T])), dtype=tdt)
+        ts_ref = torch.tensor(sorted(set([t0] + outs + [grid[c] for c in cuts] + [T])), dtype=tts)
         ys_ref, extra_ref = call(sde, rec, ts_ref, y0, None, "oneshot")
         trace_ref = [(r[0], r[1]) for r in stubs.steps_of(rec.trace)]
         if trace_ref != trace_a:
             raise Violation("trace_depends_on_ts", {"len": [len(trace_ref), len(trace_a)]}, "oneshot")
+        if not torch.equal(ys_a[-1], ys_ref[-1]):
+            raise Violation("second_call_differs_from_first", {"err": bm.maxabs(ys_a[-1] - ys_ref[-1]),
+                                                                "note": "same arguments (same options dict, SDE and Brownian objects); only the intermediate output times differ"}, "oneshot")
         ref_at = {float(t): ys_ref[i] for i, t in enumerate(ts_ref)}
         log.add("oneshot", tdig(ys_ref), tdig(extra_ref), len(trace_ref))
         # --- chunked execution with crashes
@@ -164,7 +170,7 @@ def run_case(case, keep_log=False):
         for ci, (a, b) in enumerate(chunks):
             ga, gb = grid[a], grid[b]
             inner_outs = [t for t in outs if ga < t < gb]
-            ts_c = torch.tensor([ga] + inner_outs + [gb], dtype=tdt)
+            ts_c = torch.tensor([ga] + inner_outs + [gb], dtype=tts)
             pending = [c for c in case["crashes"] if c["chunk"] == ci]
             while True:
                 rec = stubs.make_recorder(inner)
@@ -218,7 +224,7 @@ def run_case(case, keep_log=False):
             sde2 = stubs.make_sde(spec, case["dtype"])
             y2 = y0
             for (a, b) in chunks:
-                ys2, _ = call(sde2, stubs.make_recorder(inner), torch.tensor([grid[a], grid[b]], dtype=tdt), y2, None, "neg")
+                ys2, _ = call(sde2, stubs.make_recorder(inner), torch.tensor([grid[a], grid[b]], dtype=tts), y2, None, "neg")
                 y2 = ys2[-1]
             probes["negative_control_same" if torch.equal(y2, ys_ref[-1]) else "negative_control_differs"] = 1
         states = [f"{solver['method']}/{solver['sde_type']}/{spec['noise_type']}/{n}/{bounds}/{crash_pat}"]
@@ -257,8 +263,8 @@ def simplify(case):
             x = copy.deepcopy(case)
             x["crashes"][i]["at"] = c["at"] // 2
             yield x
-    for key, val in (("bm", "stub"), ("dtype", "float64"), ("fault_rate", 0.0), ("cache_size", 45)):
-        if case[key] != val:
+    for key, val in (("bm", "stub"), ("dtype", "float64"), ("fault_rate", 0.0), ("cache_size", 45), ("ts_dtype", "same")):
+        if case.get(key) != val:
             c = copy.deepcopy(case)
             c[key] = val
             yield c
